@@ -37,8 +37,8 @@ pub fn run<C: Suite>(ctx: &mut Ctx) {
     let shapes_v: Vec<(u16, u16)> = match (ctx.quick(), slow) {
         (true, true) => vec![(3, 2), (3, 3)],
         (true, false) => vec![(3, 2), (3, 3), (4, 2), (4, 3), (4, 4), (5, 3), (5, 5)],
-        (false, true) => shapes(4),
-        (false, false) => shapes(6),
+        (false, true) => shapes(5),
+        (false, false) => shapes(7),
     };
     for (n, t) in shapes_v {
         if n < 3 {
